@@ -515,6 +515,39 @@ static void suiteStatic(Pools& pools, Rng& r, int n) {
   }
 }
 
+// more than 16 participating workers (multi-group dynamic path) with FEW chunks: fewer chunks than worker groups,
+// the final short chunk in an early group, ranges that are not a multiple of the chunk size, type maxima
+template <class T>
+static void suiteMulti(Pools& pools, Rng& r, int n) {
+  using L = std::numeric_limits<T>;
+  for (int k = 0; k < n; ++k) {
+    long long len = 1 + (long long)r.below(sizeof(T) == 1 ? 100 : 260);
+    long long chunk = std::max<long long>(1, len - 3 + (long long)r.below(40)); // around the range size: 1..3 chunks
+    if (r.below(4) == 0)
+      chunk = 1 + (long long)r.below((uint64_t)len);
+    chunk = std::min<long long>(chunk, (long long)std::min<i128>((i128)L::max(), 1000000));
+    i128 S;
+    switch (r.below(3)) {
+      case 0: S = (i128)L::max() - len; break;            // touches the type maximum
+      case 1: S = L::is_signed ? -(i128)r.below(50) : (i128)r.below(50); break;
+      default: S = (i128)L::max() / 2; break;
+    }
+    if (S < (i128)L::min())
+      S = (i128)L::min();
+    CallCfg cc;
+    cc.mode = r.below(5) == 0 ? kAutoM : kChunkM;
+    cc.chunk = cc.mode == kChunkM ? chunk : 0;
+    cc.opt.wait = r.below(2) != 0;
+    cc.opt.maxThreads = 0x7fffffffu;
+    cc.opt.minItemsPerChunk = 1;
+    cc.opt.granularity = cc.mode == kAutoM ? r.pick<uint32_t>({1, 2, 3}) : 1;
+    cc.pool = r.pick<int>({20, 20, 39});
+    cc.api = (int)r.below(3);
+    cc.concurrentSet = r.below(4) == 0;
+    runCase<T>(pools, (T)S, (T)(S + len), cc);
+  }
+}
+
 template <class T>
 static void suiteNest(Pools& pools, Rng& r, int n) {
   for (int k = 0; k < n; ++k) {
@@ -575,6 +608,12 @@ int main(int argc, char** argv) {
     suiteStatic<uint8_t>(pools, r, n / 2);
     suiteStatic<uint16_t>(pools, r, n / 2);
     suiteStatic<uint64_t>(pools, r, n / 2);
+  } else if (suite == "multi") {
+    suiteMulti<int32_t>(pools, r, n / 3);
+    suiteMulti<int8_t>(pools, r, n / 6);
+    suiteMulti<uint8_t>(pools, r, n / 6);
+    suiteMulti<int64_t>(pools, r, n / 6);
+    suiteMulti<uint16_t>(pools, r, n / 6);
   } else if (suite == "nest") {
     suiteNest<int32_t>(pools, r, n);
     suiteNest<uint8_t>(pools, r, n / 2);
